@@ -205,6 +205,20 @@ func goTargets() map[*types.Func]bool {
 	return out
 }
 
+// safely runs one of the definitional fragment translators.  They are ADVISORY (DESIGN.md §16): a source construct that
+// makes one of them give up - or crash - must cost only that fragment's tie, never the tables the proof obligations of
+// C01/C02/C16 rest on, nor the ties of other files.  A crash yields an (almost) empty generated file, so the tie module of
+// that file no longer builds and its property switches to the thorough generators.
+func safely(name string, f func() (string, map[string]string)) (lean string, status map[string]string) {
+	defer func() {
+		if r := recover(); r != nil {
+			lean = fmt.Sprintf("-- %s: the translator gave up on the current source (%v)\n", name, r)
+			status = map[string]string{name: fmt.Sprintf("translator gave up: %v", r)}
+		}
+	}()
+	return f()
+}
+
 func lockTable() []outMethod {
 	var out []outMethod
 	gos := goTargets()
@@ -701,67 +715,67 @@ func main() {
 	writeConsts(filepath.Join(outDir, "Consts.lean"), cs)
 	funcsLean, fragStatus := translateFrag()
 	writeIfChanged(filepath.Join(outDir, "Funcs.lean"), funcsLean)
-	contLean, contStatus := translateContainers()
+	contLean, contStatus := safely("translateContainers", func() (string, map[string]string) { return translateContainers() })
 	writeIfChanged(filepath.Join(outDir, "Containers.lean"), contLean)
 	for k, v := range contStatus {
 		fragStatus[k] = v
 	}
-	heapLean, heapStatus := translateHeap() // frag_heap.go
+	heapLean, heapStatus := safely("translateHeap", func() (string, map[string]string) { return translateHeap() }) // frag_heap.go
 	writeIfChanged(filepath.Join(outDir, "Heap.lean"), heapLean)
 	for k, v := range heapStatus {
 		fragStatus[k] = v
 	}
 	// trans2: the helpers outside frag.go's fragment (frag_more.go) -> Gen/Funcs2.lean
-	moreLean, moreStatus := translateMore()
+	moreLean, moreStatus := safely("translateMore", func() (string, map[string]string) { return translateMore() })
 	writeIfChanged(filepath.Join(outDir, "Funcs2.lean"), moreLean)
 	for k, v := range moreStatus {
 		fragStatus[k] = v
 	}
 	// end trans2
 	// trans3: cache/cache.go (frag_cache.go)
-	cacheLean, cacheStatus := translateCache()
+	cacheLean, cacheStatus := safely("translateCache", func() (string, map[string]string) { return translateCache() })
 	writeIfChanged(filepath.Join(outDir, "Cache.lean"), cacheLean)
 	for k, v := range cacheStatus {
 		fragStatus[k] = v
 	}
 	// trans3 end
 	// trans5: queue/lqueue.go, stack/lstack.go over the DSeq contract (frag_linked.go)
-	linkedLean, linkedStatus := translateLinked()
+	linkedLean, linkedStatus := safely("translateLinked", func() (string, map[string]string) { return translateLinked() })
 	writeIfChanged(filepath.Join(outDir, "Linked.lean"), linkedLean)
 	for k, v := range linkedStatus {
 		fragStatus[k] = v
 	}
 	// end trans5
 	// trans4: bstree/bstree.go -> Gen/Bst.lean (frag_bst.go)
-	bstLean, bstStatus := translateBst()
+	bstLean, bstStatus := safely("translateBst", func() (string, map[string]string) { return translateBst() })
 	writeIfChanged(filepath.Join(outDir, "Bst.lean"), bstLean)
 	for k, v := range bstStatus {
 		fragStatus[k] = v
 	}
 	// end trans4
 	// trans8: list/slist.go, list/dlist.go at the pointer level (frag_list.go) -> Gen/Lists.lean
-	listsLean, listsStatus := translateLists()
+	listsLean, listsStatus := safely("translateLists", func() (string, map[string]string) { return translateLists() })
 	writeIfChanged(filepath.Join(outDir, "Lists.lean"), listsLean)
 	for k, v := range listsStatus {
 		fragStatus[k] = v
 	}
 	// end trans8
 	// trans6: trie/trie.go -> Gen/Trie.lean (frag_trie.go)
-	trieLean, trieStatus := translateTrie()
+	trieLean, trieStatus := safely("translateTrie", func() (string, map[string]string) { return translateTrie() })
 	writeIfChanged(filepath.Join(outDir, "Trie.lean"), trieLean)
 	for k, v := range trieStatus {
 		fragStatus[k] = v
 	}
 	// end trans6
 	// trans7: After, Before, Once, Retry, RetryWithDelay of func.go + cache.Item.Val (frag_func.go) -> Gen/FuncWrap.lean
-	fwLean, fwStatus := translateFuncWrap(dir)
+	fwLean, fwStatus := safely("translateFuncWrap", func() (string, map[string]string) { return translateFuncWrap(dir) })
 	writeIfChanged(filepath.Join(outDir, "FuncWrap.lean"), fwLean)
 	for k, v := range fwStatus {
 		fragStatus[k] = v
 	}
 	// end trans7
 	// trans9: cache/lrucache.go at pointer level over the store of Model/LruPtr.lean (frag_lru.go) -> Gen/Lru.lean
-	lruLean, lruStatus := translateLru()
+	lruLean, lruStatus := safely("translateLru", func() (string, map[string]string) { return translateLru() })
 	writeIfChanged(filepath.Join(outDir, "Lru.lean"), lruLean)
 	for k, v := range lruStatus {
 		fragStatus[k] = v
